@@ -62,6 +62,8 @@ FUT_CALLS = [(r'^operator!=\|bool \(const __normal_iterator<(const )?std::shared
              (r'^operator\*\|.*__normal_iterator<(const )?std::shared_future', '(*nv_future_at({0}.v, {0}.i))'),
              (r'^ctor\|(%s)\|void \((std::)?vector<.*> &&\)' % FUTVEC, 'nv_futvec_move({&0})'),
              (r'^operator=\|.*vector<.*> &&\)\|(%s|nano::parallel::section_t)' % FUTVEC, 'nv_futvec_move_assign({&0}, {&1})'),
+             (r'^ctor\|(%s)\|void \(__gnu_cxx::__normal_iterator<(const )?std::shared_future<void> \*.*, __gnu_cxx::__normal_iterator<' % FUTVEC, 'nv_futvec_range({0}, {1})'),
+             (r'^operator=\|.*\(const (std::)?vector<.*> &\)\|(%s|nano::parallel::section_t)' % FUTVEC, 'nv_futvec_copy_assign({&0}, {&1})'),
              (r'^swap\|.*\|(%s|nano::parallel::section_t)' % FUTVEC, 'nv_futvec_swap({&0}, {&1})'), (r'^move\|', '{0}')]
 FUT_MEMBERS = [(r'^c?begin\|std::vector<std::shared_future', 'nv_fit_begin({self})'),
                (r'^c?end\|std::vector<std::shared_future', 'nv_fit_end({self})'),
@@ -209,7 +211,7 @@ def build(tier):
             'lost wake-ups / deadlock freedom: the bounded model lets wait(lock, pred) return whenever pred holds (notify_one / notify_all are no-ops), so a missing or misplaced notify is invisible; only "the final state is reachable under some schedule" is checked (nv_canary).  The stricter notification-counter model is sketched in conc.h (NV_STRICT_NOTIFY) but not run',
             'data races on plain members read outside the models (m_stop is read directly by the extracted code): no race detector is run (goto-instrument --race-check not tried); sequential consistency is assumed by the bounded check',
             'data races on the operator\'s own state; exceptions thrown by the operator in the sequential branch (observation, demonstrated natively: there an exception leaves map also with raise == false, so whether map(.., false) throws depends on the pool size: specs/C17/FINDING_seq_branch_raise.md)',
-            'section_t::block written with an explicit iterator or index loop instead of the range-based for: the loop contract of section.h names the range-for\'s own variables (__range1 / __begin1 / __end1), such a rewrite ends undecided (exit 2), not refuted; a COPY of a vector of futures (std::vector<future_t> v(*this)) and try / catch inside block or map are not in the printer\'s / the model\'s vocabulary (undecided)',
+            'section_t::block written with an explicit iterator or index loop instead of the range-based for: the loop contract of section.h names the range-for\'s own variables (__range1 / __begin1 / __end1), such a rewrite ends undecided (exit 2), not refuted; a local of type section_t inside block (its destructor calls block again) and try / catch inside block or map are not in the printer\'s / the model\'s vocabulary (undecided)',
             'that "this thread observed the task finished" implies the operator\'s effects are visible to the caller (happens-before through the shared state of std::future: assumed, C++ [futures.state])',
             'std::thread(std::cref(worker)) starts worker k on thread k (lambda inside std::transform: not extractable, dependent types)',
             'that clearing the queue on stop breaks the promises of the dropped tasks (std::packaged_task destructor semantics)',
@@ -223,7 +225,7 @@ def build(tier):
             'std::min / std::max / std::clamp (with lo <= hi) return the mathematical min / max / clamp',
             'std::vector::emplace_back appends one element; std::transform + back_inserter appends one output per input; range-for visits begin..end',
             'std::packaged_task(f) holds f, get_future() returns its future, moving it leaves it empty; shared_future::get() waits then rethrows the stored exception (every time it is called; the only call that delivers it), wait() waits; wait_for / wait_until return future_status::ready iff the shared state is ready (it may become ready at any time, never un-ready), never deferred, and consume nothing; valid() of the copies of one future agree',
-            'std::vector<future_t> (section_t and local vectors): a vector of futures is the contiguous range of task ids it holds (map\'s emplace_back asserts that it is filled in task order); default construction = empty, swap / std::swap exchange contents, move construction / assignment leave the source empty, clear() drops the futures WITHOUT waiting (shared_future destructor does not block), iterators = (container, position); copying a vector of futures is not modelled (extraction stops: undecided)',
+            'std::vector<future_t> (section_t and local vectors): a vector of futures is the contiguous range of task ids it holds (map\'s emplace_back asserts that it is filled in task order); default construction = empty, swap / std::swap exchange contents, move construction / assignment leave the source empty, clear() drops the futures WITHOUT waiting (shared_future destructor does not block), iterators = (container, position); a copy (copy construction / assignment, construction from an iterator range) holds the same futures as its source (shared states)',
             'the task whose future throws in get() is described by a prophecy bit per ghost task (the task ends with a stored exception or not); futures other than the ghost one throw nondeterministically',
             'queue_t::enqueue_no_lock as used inside map is modelled by the values the pushed lambda captures (checked by-copy); its own body is verified in target enqueue_no_lock',
             'worker_t::m_queue (a reference member) is modelled as the worker\'s own view of the queue',
